@@ -47,6 +47,10 @@ func c05Scripts(long bool) func(g *Gen, id string, kind byte) []Action {
 			return []Action{{Op: "obs"}, {Op: "next"}, {Op: "obs"}, {Op: "next"}, {Op: "obs"}}
 		case 2:
 			return []Action{{Op: "obs"}, {Op: "nextrecover"}, {Op: "obs"}} // recovers panics of the rest of the chain
+		case 3:
+			if rng.Chance(1, 2) {
+				return []Action{{Op: "obs"}, {Op: "bufnext"}, {Op: "obs"}} // buffers the response of the rest of the chain
+			}
 		}
 		return nil // default: obs, next, obs
 	}
@@ -140,6 +144,16 @@ func genC05(mode string) func(rng *Rng, sc *Scenario) {
 							s = []Action{{Op: "obs"}, {Op: "next"}, {Op: "obs"}, ab, {Op: "obs"}}
 						default: // abort, Next twice
 							s = []Action{{Op: "obs"}, ab, {Op: "next"}, {Op: "next"}, {Op: "obs"}}
+						}
+						switch rng.Intn(8) {
+						case 0: // a plain abort first, AbortWithStatus later in the same handler
+							s = []Action{{Op: "obs"}, {Op: rng.Pick([]string{"abort", "abortthen"})}, {Op: "obs"}, {Op: "abortstatus", N: rng.Pick2(429, 503)}, {Op: "obs"}}
+						case 1: // abort, then the handler crashes: what the recovering code sees must still be an aborted request
+							s = []Action{{Op: "obs"}, ab, {Op: "obs"}, {Op: "panic", S: "str"}}
+							if sc.Options.OnPanic == "" {
+								sc.Options.OnPanic = "p0"
+								sc.Handlers["p0"] = []Action{{Op: "obs"}}
+							}
 						}
 						rq.Over = map[string][]Action{id: s}
 						if rng.Chance(1, 4) {
@@ -250,10 +264,6 @@ func checkC05(sc *Scenario) *CheckOut {
 		if len(out.Viol) > 0 {
 			break
 		}
-		if len(rec.PanicAt) > 0 {
-			out.Faults["handler-panic"]++
-			continue // a planted panic: C09's business
-		}
 		rq := &sc.Clients[rec.Task].Reqs[rec.Idx]
 		chainLen := len(expectedChain(res.W, nocache, rec.Method, rec.Path))
 		sig := ""
@@ -266,6 +276,25 @@ func checkC05(sc *Scenario) *CheckOut {
 			}
 		} else if chainLen >= 33 {
 			out.Faults["chain-33-or-longer"]++
+		}
+		if len(rec.PanicAt) > 0 {
+			out.Faults["handler-panic"]++
+			if len(rec.AbortAt) > 0 && rec.AbortAt[0] < rec.PanicAt[0] {
+				// the handler aborted and then crashed: whoever looks at the request afterwards (a recovering
+				// middleware, the panic hook) must see an aborted request, and nothing of the chain may start
+				for i := rec.AbortAt[0] + 1; i < len(rec.Trace); i++ {
+					it := rec.Trace[i]
+					if it.K == "obs" && !strings.Contains(it.V, " ab=true") {
+						out.Viol = append(out.Viol, Violation{"C05", "is-aborted-wrong", fmt.Sprintf("client %d request %d (%s %s): handler %s observed IsAborted()==false after handler %s aborted (and then panicked)\n  trace: %s", rec.Task, rec.Idx, rec.Method, rec.Path, it.H, rec.Trace[rec.AbortAt[0]].H, compactTrace(rec.Trace)), sig})
+						break
+					}
+					if it.K == "enter" && it.H != sc.Options.OnPanic && it.H != sc.Options.OnError {
+						out.Viol = append(out.Viol, Violation{"C05", "ran-after-abort", fmt.Sprintf("client %d request %d (%s %s): handler %s started after handler %s aborted (and then panicked)\n  trace: %s", rec.Task, rec.Idx, rec.Method, rec.Path, it.H, rec.Trace[rec.AbortAt[0]].H, compactTrace(rec.Trace)), sig})
+						break
+					}
+				}
+			}
+			continue // the rest of a panicking request is C09's business
 		}
 		fail := func(class, format string, a ...any) {
 			out.Viol = append(out.Viol, Violation{"C05", class,
@@ -297,7 +326,6 @@ func checkC05(sc *Scenario) *CheckOut {
 		aborter := rec.Trace[p].H
 		// handlers entered and not left before p, outermost first
 		var open []string
-		committedBefore := false
 		for i := 0; i < p; i++ {
 			it := rec.Trace[i]
 			switch it.K {
@@ -309,11 +337,6 @@ func checkC05(sc *Scenario) *CheckOut {
 				if strings.Contains(it.V, " ab=true") {
 					fail("is-aborted-wrong", "handler %s observed IsAborted()==true before handler %s aborted", it.H, aborter)
 				}
-			}
-		}
-		for _, c := range rec.Calls {
-			if c.At <= p {
-				committedBefore = true // something reached the underlying writer before the abort (also from a built-in handler)
 			}
 		}
 		if len(out.Viol) > 0 {
@@ -348,16 +371,30 @@ func checkC05(sc *Scenario) *CheckOut {
 			fail("suspended-not-resumed", "handlers %v were suspended in Next() when %s aborted and never ran to completion", open, aborter)
 			continue
 		}
-		if v := rec.Trace[p].V; strings.HasPrefix(v, "status ") && !committedBefore {
+		// the last AbortWithStatus of the request decides the status, unless something was committed before it
+		// or a status was set after it
+		last := -1
+		for _, q := range rec.AbortAt {
+			if strings.HasPrefix(rec.Trace[q].V, "status ") {
+				last = q
+			}
+		}
+		if last >= 0 {
+			committed := false
+			for _, c := range rec.Calls {
+				if c.At <= last {
+					committed = true
+				}
+			}
 			var code int
-			fmt.Sscanf(v, "status %d", &code)
+			fmt.Sscanf(rec.Trace[last].V, "status %d", &code)
 			laterStatus := false
-			for i := p + 1; i < len(rec.Trace); i++ {
-				if rec.Trace[i].K == "do" && strings.HasPrefix(rec.Trace[i].V, "status:") {
+			for i := last + 2; i < len(rec.Trace); i++ { // (the item right after the abort is the abort's own status record)
+				if rec.Trace[i].K == "do" && (strings.HasPrefix(rec.Trace[i].V, "status:") || strings.HasPrefix(rec.Trace[i].V, "httperr:")) {
 					laterStatus = true
 				}
 			}
-			if !laterStatus && rec.Code != code {
+			if !committed && !laterStatus && rec.Code != code {
 				fail("status", "AbortWithStatus(%d) before the response was committed, but the committed status is %d", code, rec.Code)
 			}
 		}
